@@ -223,6 +223,56 @@ def slot_switch_rules(prog, run, rid):
     return slots, saved, stored
 
 
+def overload_routing_rule(prog, run, rid):
+    """Every global operator new / delete overload folded against recording stubs of the function-pointer slots and of the detector: it
+    does its work through exactly one call of the slot of its own family and variant (so that whatever a switch stores there - the
+    thread-safe functions included - covers it), hands on its own arguments in order, answers what the slot answers, and never touches
+    the detector itself. Shared by C04.R8 (accounting family) and C10.R2 (the lock covers every entry)."""
+    FAM = {"operator new": "operator_new", "operator new[]": "operator_new_array", "operator delete": "operator_delete", "operator delete[]": "operator_delete_array"}
+    svars = [v for v in slot_vars(prog) if not v.startswith("saved_")]
+    nops = 0
+    for f in sorted((g for g in prog.functions.values() if g.file == PLUGIN and g.name in FAM), key=lambda g: g.line):
+        nops += 1
+        run.analysed(f)
+        pts = [q["ct"] for q in f.params]
+        is_del = "delete" in f.name
+        if is_del:
+            want = FAM[f.name] + "_fptr"
+        else:
+            want = FAM[f.name] + ("_nothrow_fptr" if any("nothrow_t" in t for t in pts) else ("_debug_fptr" if len(pts) == 3 else "_fptr"))
+        seq, direct = [], []
+        hooks = {}
+        for sv in svars:
+            hooks[sv] = (lambda sv: lambda *a_: (seq.append((sv, tuple(a_))), 5150)[1])(sv)
+        for g in prog.functions.values():
+            if g.qn.startswith(("MemoryLeakDetector::", "TestMemoryAllocator::")) or g.qn in ("MemoryLeakWarningPlugin::getGlobalDetector",):
+                hooks[g.qn] = (lambda qn: lambda *a_: (direct.append(qn), 0)[1])(g.qn)
+        vals = [40 + i_ for i_ in range(len(f.params))]
+        ev = Evaluator(prog, f, env=dict(zip([q["name"] for q in f.params], vals)), calls=hooks)
+        ev.optional_stubs = set(hooks)
+        try:
+            ev.run_blocks(f.entry, max_steps=600)
+            r = getattr(ev, "ret", None)
+        except Unknown as u:
+            raise AnalysisBroken("%s.%s: %s(%s) cannot be folded: %s" % (run.pid, rid, f.name, ", ".join(pts), u))
+        why = ""
+        if [s_ for s_, a_ in seq] != [want]:
+            why = "goes through %s, the slot of its family and variant is %s" % ([s_ for s_, a_ in seq] or "no slot", want)
+        elif direct:
+            why = "also calls %s itself: that work is outside whatever the slot holds (no lock in thread-safe mode, no effect when switched off)" % sorted(set(direct))[:3]
+        else:
+            args = seq[0][1]
+            n_fwd = 1 if (is_del or len(pts) != 3) else 3
+            if tuple(args[:n_fwd]) != tuple(vals[:n_fwd]) or len(args) != n_fwd:
+                why = "hands %s to the slot, its own arguments are %s" % (args, tuple(vals[:n_fwd]))
+            elif not is_del and r != 5150:
+                why = "answers %s, the slot answered 5150" % (r,)
+        run.ob(rid, "%s(%s) folded: one call of %s with its own arguments, nothing else" % (f.name, ", ".join(pts), want), f.site, not why, witness=[str(x) for x in seq] + sorted(set(direct))[:3],
+               what="" if not why else "a global %s overload %s" % (f.name, why))
+    if nops < 16:
+        raise AnalysisBroken("%s.%s: only %d global operator new/delete overloads found (18 confirmed by hand)" % (run.pid, rid, nops))
+
+
 def check(ctx, run):
     prog = ctx.program()
     run.assume("POSIX pthread_mutex_lock/unlock provide mutual exclusion (trusted base)")
@@ -324,6 +374,9 @@ def check(ctx, run):
         run.ob("R2", "slot %s" % s, ft.site, not why, witness={"threadsafe": [list(map(str, e)) for e in et], "default": [list(map(str, e)) for e in ed]}, what=why)
 
     # any other function using the RAII type is also 'locked'
+    # every global entry goes through its slot: what the thread-safe switch stores there covers it
+    overload_routing_rule(prog, run, "R2")
+
     # ---------------- R3 --------------------------------------------------
     # the functions that hold the lock: wherever an RAII lock object is declared at top level (the slot functions themselves, or helpers they delegate to)
     locked_fns = [f for f in prog.functions.values() if f.file.startswith("src/") and lock_decl_index(prog, f)[0] is not None]
